@@ -36,7 +36,8 @@ IsN(v)  == v.k = "n"
 IsU(v)  == v.k = "u"
 IsQU(v) == v.k \in {"q", "u"}
 
-Guard(a, v) == IF IsOOR(a) THEN OORV ELSE v
+\* every amount held by a model value is within the safe range
+Guard(a, v) == IF ~Small(a) THEN OORV ELSE v
 
 (***************************************************************************)
 (* The single choke point of C05: an amount in unit u is the exact result  *)
@@ -44,7 +45,7 @@ Guard(a, v) == IF IsOOR(a) THEN OORV ELSE v
 (***************************************************************************)
 SQuantum(u) == UQuantum(u)                    \* world constants: always small
 Construct(u, exact, mode) ==
-    IF IsOOR(exact) THEN OORV
+    IF ~Small(exact) THEN OORV
     ELSE IF SQuantum(u) = NoRat THEN Qty(u, exact)
     ELSE Guard(SRoundTo(exact, SQuantum(u), mode),
                Qty(u, SRoundTo(exact, SQuantum(u), mode)))
@@ -52,7 +53,7 @@ Construct(u, exact, mode) ==
 TQuantum(t) == TypeRec(t).q
 \* value (in reference units) of a type with a quantum, rounded once
 ConstructV(t, exactv, mode) ==
-    IF IsOOR(exactv) THEN OORV
+    IF ~Small(exactv) THEN OORV
     ELSE IF TQuantum(t) = NoRat THEN QtyV(t, exactv)
     ELSE Guard(SRoundTo(exactv, TQuantum(t), mode),
                QtyV(t, SRoundTo(exactv, TQuantum(t), mode)))
@@ -103,16 +104,35 @@ AbsQ(x, mode)   == Construct(x.u, SAbs(x.a), mode)
 
 (* C03 / C04: op \in {"lt","le","gt","ge","eq","ne"} *)
 Tri(s) == IF s = "O" THEN OORV ELSE BoolV(s = "T")
+\* units of one type compare like quantities of amount one (by their scale)
 Cmp(op, x, y) ==
-    IF IsQ(x) /\ IsQ(y) /\ x.t = y.t
+    IF ((IsQ(x) /\ IsQ(y)) \/ (IsU(x) /\ IsU(y))) /\ x.t = y.t
     THEN IF Equiv(y, x.u) = NoRat
          THEN (IF op = "eq" THEN BoolV(FALSE) ELSE IF op = "ne" THEN BoolV(TRUE)
                ELSE ErrV("UnitConversionError"))
          ELSE Tri(SCmp(op, x.a, Equiv(y, x.u)))
     ELSE IF op = "eq" THEN BoolV(FALSE)
     ELSE IF op = "ne" THEN BoolV(TRUE)
-    ELSE IF IsQ(x) /\ IsQ(y) THEN ErrV("IncompatibleUnitsError")
+    ELSE IF (IsQ(x) /\ IsQ(y)) \/ (IsU(x) /\ IsU(y)) THEN ErrV("IncompatibleUnitsError")
     ELSE ErrV("TypeError")
+
+(* quantity.sum(items) without start value: left fold of +, the result has  *)
+(* the first item's unit (C03).                                             *)
+RECURSIVE SumFold(_, _, _, _)
+SumFold(acc, items, k, mode) ==
+    IF k > Len(items) \/ acc.k # "q" THEN acc
+    ELSE SumFold(Add(acc, items[k], mode), items, k + 1, mode)
+SumQ(items, mode) == SumFold(items[1], items, 2, mode)
+
+(* sorted(list): the observed order perm (indices into items) must be a     *)
+(* permutation along which the exact values never decrease (C04).           *)
+SortJudge(items, perm) ==
+    IF Len(perm) # Len(items) \/ {perm[j] : j \in DOMAIN perm} # DOMAIN items THEN "bad"
+    ELSE IF \E j \in 1..(Len(perm) - 1) :
+               Cmp("le", items[perm[j]], items[perm[j + 1]]).k = "oor" THEN "oor"
+    ELSE IF \A j \in 1..(Len(perm) - 1) :
+               Cmp("le", items[perm[j]], items[perm[j + 1]]).x = "TRUE" THEN "ok"
+    ELSE "bad"
 
 (* C02: number * quantity, quantity / number *)
 MulNum(q, k, mode) == Construct(q.u, SMul(q.a, k.a), mode)
@@ -129,7 +149,7 @@ Scalable(t) == ConvKind(t) = "scale"
 \* rounded (once) only when a quantity takes part (unit op unit returns a
 \* bare (factor, unit) pair)
 Resolve(dm, v, rounded, mode) ==
-    IF IsOOR(v) THEN OORV
+    IF ~Small(v) THEN OORV
     ELSE IF dm = ZeroDim THEN NumV(v)
     ELSE IF TypeWithDim(dm) = NoName THEN ErrV("UndefinedResultError")
     ELSE IF rounded THEN ConstructV(TypeWithDim(dm), v, mode)
